@@ -11,4 +11,5 @@ func StartSpan(ctx context.Context, name string, opts ...trace.SpanStartOption) 
   props C03
   modifies nothing
   ensures ctxRoot(result0) == ctxRoot(ctx)
+  ensures [derived-in-one-step] ctxChild(result0, ctx)
 @*/
